@@ -766,6 +766,24 @@ def attr_value_for_copy(val):
     return val
 
 
+def copy_attr(src_attrs, trg_attrs, key: str):
+    """Copy an attribute value, keeping opaque and enumerated scalar types."""
+    val = attr_value_for_copy(src_attrs[key])
+    if isinstance(val, np.generic):
+        # a scalar as it is read does not carry special type information
+        raw_attrs = src_attrs
+        if isinstance(src_attrs, IH5AttributeManager):
+            raw = src_attrs._files[src_attrs._find(key)][src_attrs._gpath]
+            raw_attrs = raw.attrs
+        try:
+            dt = raw_attrs.get_id(key).dtype
+        except (AttributeError, KeyError):
+            dt = None
+        if dt is not None and (h5py.check_opaque_dtype(dt) or h5py.check_enum_dtype(dt)):
+            val = np.asarray(val).astype(dt)
+    trg_attrs[key] = val
+
+
 def h5_copy_from_to(
     source_node: Union[H5DatasetLike, H5GroupLike],
     target_group: H5GroupLike,
@@ -795,9 +813,9 @@ def h5_copy_from_to(
 
     def copy_attrs(src_node, trg_node):
         if not without_attrs:
-            trg_atrs = trg_node.attrs
-            for k, v in src_node.attrs.items():
-                trg_atrs[k] = attr_value_for_copy(v)
+            src_atrs, trg_atrs = src_node.attrs, trg_node.attrs
+            for k in src_atrs.keys():
+                copy_attr(src_atrs, trg_atrs, k)
 
     try:
         _h5_copy_from_to(source_node, target_group, target_path, copy_attrs, shallow)
@@ -807,9 +825,26 @@ def h5_copy_from_to(
         raise
 
 
+def _stored_dtype(ds_node):
+    """Return the dtype a dataset is stored with (None if unknown)."""
+    if isinstance(ds_node, IH5Dataset):  # -> look at the underlying raw dataset
+        ds_node = ds_node._files[ds_node._cidx][ds_node._gpath]
+    return getattr(ds_node, "dtype", None)
+
+
+def _copy_dataset(src_node, target_group, target_path):
+    # a scalar value as returned by [()] does not carry all information about its
+    # type (string encoding, opaque and enumerated types) -> pass the stored dtype
+    val = src_node[()]
+    dt = _stored_dtype(src_node)
+    if isinstance(val, h5py.Empty) or dt is None:
+        return target_group.create_dataset(target_path, data=val)
+    return target_group.create_dataset(target_path, data=val, dtype=dt)
+
+
 def _h5_copy_from_to(source_node, target_group, target_path, copy_attrs, shallow):
     if isinstance(source_node, H5DatasetLike):
-        node = target_group.create_dataset(target_path, data=source_node[()])
+        node = _copy_dataset(source_node, target_group, target_path)
         copy_attrs(source_node, node)  # copy dataset attributes
     else:
         # list the source first, as the target could be located inside of it
@@ -825,7 +860,7 @@ def _h5_copy_from_to(source_node, target_group, target_path, copy_attrs, shallow
         def copy_children(name, src_child):
             # name is relative to source root -> can use it
             if isinstance(src_child, H5DatasetLike):
-                trg_root[name] = src_child[()]
+                _copy_dataset(src_child, trg_root, name)
             else:  # must be grouplike
                 trg_root.create_group(name)
             copy_attrs(src_child, trg_root[name])
